@@ -349,7 +349,8 @@ static void do_seq(char *p)
   }
   jpeg_destroy_compress(&cc);
   (void)alive;
-  printf(" # %s exp=%ux%ux%d\n", anybad ? worst : ob, ew, eh, enc);
+  if (ob[0] == '-') printf(" # -\n");
+  else printf(" # %s exp=%ux%ux%d\n", anybad ? worst : ob, ew, eh, enc);
 }
 
 /* tjseq | PREC W H PF SEED params... ; ...  : several images on ONE TurboJPEG handle */
@@ -386,7 +387,8 @@ static void do_tjseq(char *p)
     tj3Free(jpg);
   }
   tj3Destroy(h);
-  printf("any # %s exp=%dx%dx0\n", anybad ? worst : ob, eW, eH);
+  if (ob[0] == '-') printf("any # tjerr\n");
+  else printf("any # %s exp=%dx%dx0\n", anybad ? worst : ob, eW, eH);
 }
 
 /* ---------------------------------------------------------------- setup stream */
